@@ -221,10 +221,36 @@ def r11_2(ctx: Ctx) -> None:
 
 
 def _ret_expr(fn: FuncInfo) -> ast.AST:
+    """The boolean a predicate returns, as one expression.  A ladder of guard clauses - `if t: return False` ... `return e` - is the
+    expression `not t and ... and e` (`if t: return True` contributes `t or ...`); locals bound once are expanded."""
+    ld = LocalDefs(fn.node)
+    body = [s_ for s_ in fn.node.body if not (isinstance(s_, ast.Expr) and isinstance(s_.value, ast.Constant))
+            and not (isinstance(s_, (ast.Assign, ast.AnnAssign)) and all(isinstance(t, ast.Name) for t in (s_.targets if isinstance(s_, ast.Assign) else [s_.target])))]
+
+    def fold(stmts) -> Optional[ast.AST]:
+        if not stmts:
+            return None
+        s0 = stmts[0]
+        if isinstance(s0, ast.Return) and s0.value is not None:
+            return ld.expand(s0.value)
+        if isinstance(s0, ast.If) and len(s0.body) == 1 and isinstance(s0.body[0], ast.Return) and isinstance(s0.body[0].value, ast.Constant) \
+                and isinstance(s0.body[0].value.value, bool):
+            rest = fold(list(s0.orelse) if s0.orelse else stmts[1:])
+            if rest is None:
+                return None
+            t = ld.expand(s0.test)
+            if s0.body[0].value.value:
+                return ast.copy_location(ast.BoolOp(op=ast.Or(), values=[t, rest]), s0)
+            return ast.copy_location(ast.BoolOp(op=ast.And(), values=[ast.UnaryOp(op=ast.Not(), operand=t), rest]), s0)
+        return None
+
     rets = [n for n in ast.walk(fn.node) if isinstance(n, ast.Return) and n.value is not None]
-    if len(rets) != 1:
-        raise AnalysisError(f"R11.4: {fn.short} has {len(rets)} return statements; expected the single-expression form")
-    return LocalDefs(fn.node).expand(rets[0].value)
+    if len(rets) == 1:
+        return ld.expand(rets[0].value)
+    e = fold(body)
+    if e is None:
+        raise AnalysisError(f"R11.4: {fn.short} has {len(rets)} return statements that do not form a guard-clause ladder")
+    return ast.fix_missing_locations(e)
 
 
 def r11_4(ctx: Ctx) -> None:
